@@ -6,3 +6,4 @@ cd /repo && sed -i "$E" $F && git diff --stat | tail -1
 cd /verif && ./pzv check $P 2>&1 | grep -A1 "^VIOLATION" | grep "rule=" | cut -c1-260
 cd /verif && ./pzv check $P 2>&1 | tail -1
 git -C /repo checkout -- .
+git -C /verif checkout -- evidence
